@@ -2,7 +2,7 @@
 
 One case = one generated problem (with at most one quality metric) + a list of plans:
 
-  (validate <problem> (fn (ref (val*) val)*) (plans (plan step*)*))
+  (validate <problem> (fn (ref (val*) val)*) (plans (plan step*)*) [(temporal-metric makespan|temporal-oversub)])
   step ::= (do action (obj*)) | (foreign name)
 
 impl()   : the REAL SequentialPlanValidator on every plan -> status / failure reason / class of the log message /
@@ -14,7 +14,6 @@ oracle() : the property itself on the real code: validity recomputed step by ste
 import signal
 import warnings
 from fractions import Fraction
-from itertools import product
 
 warnings.simplefilter("ignore")
 
@@ -30,9 +29,9 @@ CORR_NAME = "validate-status-reason-step-metric"
 RULE = ("one case = one generated problem (upp.ProblemGen grammar as in C01: Boolean/int/real/object fluents with parameters, "
         "types T>S,U, quantified/disjunctive conditions, conditional/forall assign/increase/decrease effects, bounded types, "
         "state invariants, ~5% undefined fluents, interpreted functions in ~20%) with a metric drawn in turn from {none, action "
-        "costs (constant, fluent-dependent, parameter-dependent, real-valued; with/without default; ~8% with an action left "
+        "costs (constant, fluent-dependent incl. fluents the action itself writes, parameter-dependent, real-valued; with/without default; ~8% with an action left "
         "without cost), plan length, minimize/maximize a numeric expression on the final state, oversubscription (1-3 weighted "
-        "goals)}; in ~75% of the problems the goals are re-drawn so that a state reached by a random walk of the real simulator "
+        "goals), MinimizeMakespan, TemporalOversubscription (the last two cannot be written in the problem wire format and travel as a flag)}; in ~75% of the problems the goals are re-drawn so that a state reached by a random walk of the real simulator "
         "satisfies them. Plans per problem: the empty plan, every single ground instance, every sequence of length 2 (quick; "
         "sampled above 40) / also length 3 (thorough; sampled above 150), random walks of length 3-6 along applicable actions "
         "(mostly executable) with and without one step replaced by a random instance, and a plan containing an action that is "
@@ -43,9 +42,10 @@ ASSUMPTIONS = [
     "divisors are non-zero constants (DESIGN 2.11): ZeroDivisionError escapes from the validator and the property is silent",
     "problems whose initial state violates their own invariants are rejected by get_initial_state with UPProblemDefinitionError "
     "(documented rejection of an ill-defined problem, not a validation verdict) and are not generated",
-    "at most one quality metric (more raise UPProblemDefinitionError by design); metric kinds of the property text only: "
-    "MinimizeMakespan / TemporalOversubscription are accepted by supported_kind() but make the sequential validator raise "
-    "NotImplementedError on a valid plan — outside the quantifier of C03, reported as an observation",
+    "at most one quality metric (more raise UPProblemDefinitionError by design)",
+    "MinimizeMakespan / TemporalOversubscription are inside supported_kind() but define no value for a sequential plan: the "
+    "repaired validator (notes/patches/C03-temporal-metric-not-evaluated.patch) does not evaluate them, the property's metric "
+    "clause lists four other kinds, so only validity and 'never raises' are demanded there (2 of 12 generated problems)",
     "when the metric is not evaluable although the plan is executable and reaches the goals (an action without cost and no "
     "default: UPUsageError; a cost / final-state expression / oversubscription goal reading a fluent without value) the validator "
     "answers INVALID; the property does not decide these cases (DESIGN 5 C03): they are generated rarely, model and code must "
@@ -66,7 +66,7 @@ MODELLED = [
     "not modelled: PlanValidatorMixin.validate's ProblemKind / PlanKind checks, log message texts beyond their class, the trace "
     "and calculated_interpreted_functions fields, simulated effects, user callables, Python dict/set/Fraction",
 ]
-BUDGET_S = {"quick": 50, "thorough": 420}
+BUDGET_S = {"quick": 50, "thorough": 400}
 WATCHDOG_S = 60
 
 
@@ -92,7 +92,9 @@ class watchdog:
 # generation
 # ------------------------------------------------------------------------------------------------
 
-METRIC_KINDS = ["none", "costs", "length", "min-final", "max-final", "oversub", "costs", "oversub"]
+METRIC_KINDS = ["none", "costs", "length", "min-final", "max-final", "oversub", "costs", "oversub", "makespan", "costs",
+                "temporal-oversub", "oversub"]
+TEMPORAL = ("makespan", "temporal-oversub")
 
 
 def _set_sec(ps, name, items):
@@ -131,7 +133,14 @@ def gen_metric(rng, g, ps, kind):
                 if sparams:
                     q = rng.choice(sparams)
                     opts += [["fl", FL["xq"], ["fl", FL["own"], ["p", q[0], q[1]]]]] * 2
-            costs.append([a[1], rng.choice(opts)])
+            # a cost that reads a numeric fluent the action itself writes: its value differs between the pre-state
+            # and the successor, so "summed over PRE-states" is observable
+            own = []
+            for e in a[4][1:]:
+                ty = e[2][1][1]
+                if isinstance(ty, list) and ty[0] in ("int", "real") and not e[5]:
+                    own += [["plus", e[2], ["i", "1"]], e[2], ["times", ["i", "2"], e[2]]]
+            costs.append([a[1], rng.choice(own) if own and rng.random() < 0.5 else rng.choice(opts)])
         # without default an action left out has NO cost (UPUsageError at validation): kept rare
         if leave_out:
             dflt = "_" if rng.random() < 0.25 else rng.choice([["i", "1"], ["i", "0"], ["r", "3/2"], ["fl", FL["xb"]]])
@@ -325,13 +334,20 @@ def gen_plans(rng, real, tier):
     return out
 
 
-def payload(ps, fns, plans):
-    return ["validate", ps, ["fn"] + list(fns), ["plans"] + plans]
+def payload(ps, fns, plans, temporal=None):
+    pl = ["validate", ps, ["fn"] + list(fns), ["plans"] + plans]
+    if temporal:
+        pl.append(["temporal-metric", temporal])
+    return pl
+
+
+def temporal_of(pl):
+    return pl[4][1] if len(pl) > 4 else None
 
 
 def make_case(rng, tier, kind):
     for _ in range(200):
-        r = gen_problem(rng, kind)
+        r = gen_problem(rng, "none" if kind in TEMPORAL else kind)
         if r is None:
             continue
         ps, fns = r
@@ -339,12 +355,12 @@ def make_case(rng, tier, kind):
             real = simlib.make_real(ps, fns)
         except simlib.Skip:
             continue
-        return payload(ps, fns, gen_plans(rng, real, tier))
+        return payload(ps, fns, gen_plans(rng, real, tier), kind if kind in TEMPORAL else None)
     raise RuntimeError("generator kept everything out")
 
 
 def cases(rng, tier):
-    n = 56 if tier == "quick" else 900
+    n = 60 if tier == "quick" else 300
     for i in range(n):
         yield make_case(rng, tier, METRIC_KINDS[i % len(METRIC_KINDS)])
 
@@ -356,6 +372,18 @@ def cases(rng, tier):
 def _build(pl):
     ps, fns = pl[1], pl[2][1:]
     real = simlib.Real(ps, fns)
+    t = temporal_of(pl)
+    if t is not None:
+        # a metric the wire format does not carry: inside supported_kind(), no value on a sequential plan
+        from unified_planning.model.metrics import MinimizeMakespan, TemporalOversubscription
+        from unified_planning.model.timing import GlobalStartTiming
+        if t == "makespan":
+            real.P.add_quality_metric(MinimizeMakespan(real.ctx.env))
+        elif t == "temporal-oversub":
+            goals = list(real.P.goals) or [real.ctx.em.TRUE()]
+            real.P.add_quality_metric(TemporalOversubscription({(GlobalStartTiming(), goals[0]): 3}, real.ctx.env))
+        else:
+            raise ValueError(t)
     return real
 
 
@@ -613,7 +641,7 @@ def nontrivial(pl, ans):
 def stats(pl, ans):
     out = {}
     ms = upp.get(pl[1], "metrics")
-    out["problem-metric:" + (ms[0][0] if ms else "none")] = 1
+    out["problem-metric:" + (temporal_of(pl) or (ms[0][0] if ms else "none"))] = 1
     plans = pl[3][1:]
     out["plans:%s" % ("<=20" if len(plans) <= 20 else "21-60" if len(plans) <= 60 else "61+")] = 1
     for a, p in zip(ans if isinstance(ans, list) else [], plans):
@@ -635,15 +663,15 @@ def stats(pl, ans):
 
 
 def shrink(pl):
-    ps, fns, plans = pl[1], pl[2][1:], pl[3][1:]
+    ps, fns, plans, tm = pl[1], pl[2][1:], pl[3][1:], temporal_of(pl)
     # fewer plans first
     if len(plans) > 1:
         for p in plans:
-            yield payload(ps, fns, [p])
+            yield payload(ps, fns, [p], tm)
     for j, p in enumerate(plans):
         steps = p[1:]
         for k in range(len(steps)):
-            yield payload(ps, fns, plans[:j] + [["plan"] + steps[:k] + steps[k + 1:]] + plans[j + 1:])
+            yield payload(ps, fns, plans[:j] + [["plan"] + steps[:k] + steps[k + 1:]] + plans[j + 1:], tm)
 
     def rebuild(ps2):
         names = {a[1] for a in upp.get(ps2, "actions")}
@@ -654,13 +682,18 @@ def shrink(pl):
             simlib.make_real(ps2, fns)
         except simlib.Skip:
             return None
-        return payload(ps2, fns, keep)
+        return payload(ps2, fns, keep, tm)
     yield from simlib.shrink_problem(pl, rebuild)
     # drop the metric's parts
     ms = upp.get(ps, "metrics")
     if ms and ms[0][0] == "oversub" and len(ms[0][1]) > 1:
         for k in range(len(ms[0][1])):
-            yield payload(_set_sec(ps, "metrics", [["oversub", ms[0][1][:k] + ms[0][1][k + 1:]]]), fns, plans)
+            yield payload(_set_sec(ps, "metrics", [["oversub", ms[0][1][:k] + ms[0][1][k + 1:]]]), fns, plans, tm)
+
+
+def known_cause(pl):
+    """D-C03b (only consulted while that finding is listed as open): a temporal metric reaches evaluate_quality_metric"""
+    return "D-C03b" if temporal_of(pl) is not None else None
 
 
 MANIFEST = {
@@ -672,8 +705,9 @@ MANIFEST = {
                    "parameters substituted, plan length, final-state expression, oversubscription gain; one named theorem per metric "
                    "kind); an INVALID answer names the first step without documented successor (or the goals) truthfully; the "
                    "UnboundLocalError path of the unrepaired code is an explicit outcome of the model, shown reachable for the code as "
-                   "found and unreachable after the repair; a missing fluent never escapes as an exception; the empty plan is "
-                   "covered. The model is tied to /repo on every run by a differential check (status, failure reason, message class, "
+                   "found and unreachable after the repair; a missing fluent never escapes as an exception; temporal metrics "
+                   "(makespan, temporal oversubscription: inside the supported kind, raised NotImplementedError as found) are not "
+                   "evaluated after the repair; the empty plan is covered. The model is tied to /repo on every run by a differential check (status, failure reason, message class, "
                    "index of the inapplicable action, exact metric value) over all short plans and random longer ones of generated "
                    "problems, plus an oracle that recomputes validity with the real simulator and metric values with an independent "
                    "evaluator."),
